@@ -73,7 +73,7 @@ Definition match_qtype (e : entry) (qt : N) : bool :=
 
 (** isWildcard: len(pat) > 1 && pat[0] == '*' && pat[1] == '.' *)
 Definition is_wildcard (pat : bytes) : bool :=
-  match pat with 42 :: 46 :: _ => true | _ => false end.
+  match pat with a :: b :: _ => (a =? 42) && (b =? 46) | _ => false end.
 
 (** strings.HasSuffix *)
 Definition has_suffix (s suf : bytes) : bool :=
